@@ -62,6 +62,12 @@ impl Decoder for FrameCodec {
         use bytes::Buf;
         use serde_amqp::de::Deserializer;
 
+        // The fixed part of the frame header after the size field
+        if src.len() < 4 {
+            return Err(Error::DecodeError(
+                "frame is shorter than the frame header".to_string(),
+            ));
+        }
         let doff = src.get_u8();
         let ftype = src.get_u8();
         let _ignored = src.get_u16();
